@@ -482,7 +482,7 @@ func loadReportBuilder(p *Prog) (*rbModel, error) {
 	proto.OnStore = func(w *symWalker, at ast.Node, target *Sym, key *Sym, val *Sym) {
 		if k, ok := key.ConstString(); ok {
 			switch k {
-			case "resultSeverity", "conforms", "result", "@id":
+			case "resultSeverity", "conforms", "result", "@id", "profileName", "dateCreated":
 				m.stores[k] = append(m.stores[k], rbStore{target, val, w.Conds(), at.Pos(), w.FuncName()})
 			}
 		}
@@ -623,180 +623,156 @@ func c03FlowsToConforms(info *types.Info, fd *ast.FuncDecl, o types.Object) bool
 // ---- L5
 func c03ReportNode(c *Ctx) {
 	r, p := c.R, c.P
-	pk := p.Pkg("internal/validator")
-	if pk == nil {
+	m, err := loadReportBuilder(p)
+	if err != nil {
+		r.Unknown("C03.L5", "report-node", "", err.Error())
 		return
 	}
-	info := pk.TypesInfo
-	// the node builder: the function containing a composite literal with keys "conforms" and "profileName"
-	var node *ast.FuncDecl
-	var lit *ast.CompositeLit
-	for _, f := range pk.Syntax {
-		for _, d := range f.Decls {
-			fd, ok := d.(*ast.FuncDecl)
-			if !ok || fd.Body == nil {
+	// conditions every store of the report shares (the guards under which a report is built at all, e.g. a non-empty
+	// evaluation result) are not conditions of an individual key
+	var common []string
+	first := true
+	for _, sts := range m.stores {
+		for _, st := range sts {
+			var cs []string
+			for _, cnd := range st.conds {
+				cs = append(cs, cnd.String())
+			}
+			if first {
+				common, first = cs, false
 				continue
 			}
-			ast.Inspect(fd.Body, func(n ast.Node) bool {
-				cl, ok := n.(*ast.CompositeLit)
-				if !ok {
-					return true
-				}
-				keys := map[string]bool{}
-				for _, el := range cl.Elts {
-					if kv, ok := el.(*ast.KeyValueExpr); ok {
-						if s, ok := constString(info, kv.Key); ok {
-							keys[s] = true
-						}
-					}
-				}
-				if keys["conforms"] && keys["profileName"] {
-					node, lit = fd, cl
-				}
-				return true
-			})
+			n := 0
+			for n < len(common) && n < len(cs) && common[n] == cs[n] {
+				n++
+			}
+			common = common[:n]
 		}
 	}
-	if node == nil {
-		r.Unknown("C03.L5", "report-node", "", "no map literal with the keys conforms and profileName found")
-		return
-	}
-	params := map[types.Object]bool{}
-	for _, f := range node.Type.Params.List {
-		for _, n := range f.Names {
-			params[info.Defs[n]] = true
+	nonConst := func(cs []symCond) []symCond {
+		var out []symCond
+		if len(cs) >= len(common) {
+			match := true
+			for i := range common {
+				if cs[i].String() != common[i] {
+					match = false
+				}
+			}
+			if match {
+				cs = cs[len(common):]
+			}
 		}
+		for _, cnd := range cs {
+			if _, isConst := cnd.Cond.ConstBool(); isConst {
+				continue
+			}
+			out = append(out, cnd)
+		}
+		return out
 	}
-	for _, el := range lit.Elts {
-		kv := el.(*ast.KeyValueExpr)
-		key, _ := constString(info, kv.Key)
-		if key != "conforms" && key != "profileName" {
+	unwrapMaybe := func(v *Sym) *Sym {
+		if v != nil && v.K == symCall && v.Fn == "maybe" && len(v.Parts) == 1 {
+			return v.Parts[0]
+		}
+		return v
+	}
+	// profileName and conforms: unconditional, values from the evaluation result
+	for _, key := range []string{"profileName", "conforms"} {
+		if len(m.stores[key]) == 0 {
+			r.Unknown("C03.L5", "node:"+key, p.Pos(m.build.Pos()), "no store of "+key+" into the report node was found")
 			continue
 		}
-		id, ok := ast.Unparen(kv.Value).(*ast.Ident)
-		r.Check(ok && params[info.Uses[id]], "C03.L5", "node:"+key, p.Pos(kv.Pos()), key+" is the parameter unchanged", key+" is not the function's parameter passed through unchanged: "+types.ExprString(kv.Value))
+		for _, st := range m.stores[key] {
+			uncond := len(nonConst(st.conds)) == 0
+			okv := true
+			why := ""
+			if key == "profileName" {
+				okv = st.val.K == symIndex && func() bool { k, _ := st.val.Y.ConstString(); return k == "profile" }()
+				why = "profileName is " + st.val.String() + `, not the value the evaluation reports under "profile"`
+			}
+			if !uncond {
+				okv = false
+				why = key + " is stored only under the condition " + condsText(st.conds)
+			}
+			r.Check(okv, "C03.L5", "node:"+key, p.Pos(st.pos), key+" is stored unconditionally, unchanged", why)
+		}
 	}
-	// conditional keys
-	condKeys := map[string]bool{}
-	ast.Inspect(node.Body, func(n ast.Node) bool {
-		ifs, ok := n.(*ast.IfStmt)
-		if !ok {
-			return true
+	// result: stored exactly when the list is not empty, and it is that list
+	if len(m.stores["result"]) == 0 {
+		r.Unknown("C03.L5", "node:result", p.Pos(m.build.Pos()), "no conditional store of result was recognised")
+	}
+	for _, st := range m.stores["result"] {
+		cs := nonConst(st.conds)
+		val := unwrapMaybe(st.val)
+		okc := false
+		why := "the result key is stored under the condition `" + condsText(cs) + "`, not exactly when the result list is non-empty"
+		if len(cs) == 0 {
+			why = "result is stored unconditionally in the report node: an empty list is printed instead of omitting the key"
 		}
-		for _, st := range ifs.Body.List {
-			as, ok := st.(*ast.AssignStmt)
-			if !ok || len(as.Lhs) != 1 {
-				continue
-			}
-			ix, ok := as.Lhs[0].(*ast.IndexExpr)
-			if !ok {
-				continue
-			}
-			key, ok := constString(info, ix.Index)
-			if !ok {
-				continue
-			}
-			condKeys[key] = true
-			cond := types.ExprString(ifs.Cond)
-			switch key {
-			case "result":
-				okc := false
-				if be, ok := ast.Unparen(ifs.Cond).(*ast.BinaryExpr); ok && (be.Op == token.NEQ || be.Op == token.GTR) {
-					if call, ok := ast.Unparen(be.X).(*ast.CallExpr); ok && len(call.Args) == 1 {
-						if fid, ok := call.Fun.(*ast.Ident); ok && fid.Name == "len" {
-							if v, ok := constInt(info, be.Y); ok && v == 0 {
-								// and the stored value is the same slice
-								if aid, ok := ast.Unparen(call.Args[0]).(*ast.Ident); ok {
-									if vid, ok := ast.Unparen(as.Rhs[0]).(*ast.Ident); ok && info.Uses[aid] == info.Uses[vid] && params[info.Uses[vid]] {
-										okc = true
-									}
-								}
-							}
-						}
-					}
-				}
-				r.Check(okc, "C03.L5", "node:result", p.Pos(ifs.Pos()), "result is stored exactly when len(results) != 0, and is the results parameter", "the result key is stored under the condition `"+cond+"`, not exactly when the result list is non-empty")
-			case "dateCreated":
-				okc := false
-				if sel, ok := ast.Unparen(ifs.Cond).(*ast.SelectorExpr); ok && sel.Sel.Name == "IncludeReportCreationTime" {
-					okc = true
-				}
-				r.Check(okc, "C03.L5", "node:dateCreated", p.Pos(ifs.Pos()), "dateCreated is stored exactly when the report configuration asks for it", "dateCreated is stored under the condition `"+cond+"`")
-				// value: <config>.ReportCreationTime().Format(layout with zone)
-				okv, why := false, "the value is not the configured clock formatted with a zone-preserving layout: "+types.ExprString(as.Rhs[0])
-				if call, ok := ast.Unparen(as.Rhs[0]).(*ast.CallExpr); ok && funcFullName(calleeOf(info, call)) == "(time.Time).Format" && len(call.Args) == 1 {
-					layout, lok := constString(info, call.Args[0])
-					recv := call.Fun.(*ast.SelectorExpr).X
-					utc := false
-					if rc, ok := ast.Unparen(recv).(*ast.CallExpr); ok && funcFullName(calleeOf(info, rc)) == "(time.Time).UTC" {
-						utc = true
-						recv = rc.Fun.(*ast.SelectorExpr).X
-					}
-					clock := false
-					if rc, ok := ast.Unparen(recv).(*ast.CallExpr); ok {
-						if f, ok := calleeOf(info, rc).(*types.Func); ok && f.Name() == "ReportCreationTime" {
-							clock = true
-						}
-					}
-					zone := lok && (strings.Contains(layout, "Z07") || strings.Contains(layout, "-07") || strings.Contains(layout, "MST"))
-					if clock && lok && (zone || (utc && strings.HasSuffix(layout, "Z"))) {
-						okv = true
-					} else if clock && lok {
-						why = fmt.Sprintf("the configured time is formatted with the layout %q, which drops the zone offset: the printed instant differs from the configured one outside UTC", layout)
-					}
-				}
-				r.Check(okv, "C03.L5", "node:dateCreated-value", p.Pos(as.Pos()), "dateCreated = configured clock, RFC 3339 with zone offset", why)
+		if len(cs) == 1 {
+			if x, ok, empty := cs[0].Emptiness(); ok && !empty && x.String() == val.String() {
+				okc = true
 			}
 		}
-		return true
-	})
-	for _, k := range []string{"result", "dateCreated"} {
-		if !condKeys[k] {
-			// stored unconditionally?
-			uncond := false
-			for _, el := range lit.Elts {
-				if kv, ok := el.(*ast.KeyValueExpr); ok {
-					if s, _ := constString(info, kv.Key); s == k {
-						uncond = true
-					}
-				}
+		r.Check(okc, "C03.L5", "node:result", p.Pos(st.pos), "result is stored exactly when the result list is not empty, and is that list", why)
+	}
+	// dateCreated: exactly when the configuration asks, value = configured clock with a zone-preserving layout
+	if len(m.stores["dateCreated"]) == 0 {
+		r.Unknown("C03.L5", "node:dateCreated", p.Pos(m.build.Pos()), "no conditional store of dateCreated was recognised")
+	}
+	for _, st := range m.stores["dateCreated"] {
+		cs := nonConst(st.conds)
+		okc := len(cs) == 1 && !cs[0].Neg && cs[0].Cond.K == symField && cs[0].Cond.Name == "IncludeReportCreationTime"
+		why := "dateCreated is stored under the condition `" + condsText(cs) + "`"
+		if len(cs) == 0 {
+			why = "dateCreated is stored unconditionally in the report node"
+		}
+		r.Check(okc, "C03.L5", "node:dateCreated", p.Pos(st.pos), "dateCreated is stored exactly when the report configuration asks for it", why)
+		val := unwrapMaybe(st.val)
+		okv, whyv := false, "the value is not the configured clock formatted with a zone-preserving layout: "+val.String()
+		if val.K == symCall && val.Fn == "(time.Time).Format" && len(val.Parts) == 1 && val.X != nil {
+			layout, lok := val.Parts[0].ConstString()
+			recv := val.X
+			utc := false
+			if recv.K == symCall && recv.Fn == "(time.Time).UTC" && recv.X != nil {
+				utc, recv = true, recv.X
 			}
-			if uncond {
-				r.Bad("C03.L5", "node:"+k, p.Pos(lit.Pos()), k+" is stored unconditionally in the report node")
-			} else {
-				r.Unknown("C03.L5", "node:"+k, p.Pos(node.Pos()), "no conditional store of "+k+" was recognised")
+			clock := recv.K == symCall && strings.HasSuffix(recv.Fn, ".ReportCreationTime")
+			zone := lok && (strings.Contains(layout, "Z07") || strings.Contains(layout, "-07") || strings.Contains(layout, "MST"))
+			if clock && lok && (zone || (utc && strings.HasSuffix(layout, "Z"))) {
+				okv = true
+			} else if clock && lok {
+				whyv = fmt.Sprintf("the configured time is formatted with the layout %q, which drops the zone offset: the printed instant differs from the configured one outside UTC", layout)
 			}
 		}
+		r.Check(okv, "C03.L5", "node:dateCreated-value", p.Pos(st.pos), "dateCreated = configured clock, RFC 3339 with zone offset", whyv)
 	}
 	// profileName originates from report["profile"], which the generator defines from Profile.Name only
 	gen := p.Pkg("internal/generator")
 	if gen != nil {
 		okName, seenTpl := false, false
-		for _, f := range gen.Syntax {
-			ast.Inspect(f, func(n ast.Node) bool {
-				call, ok := n.(*ast.CallExpr)
-				if !ok || funcFullName(calleeOf(gen.TypesInfo, call)) != "fmt.Sprintf" || len(call.Args) != 2 {
-					return true
-				}
-				format, ok := constString(gen.TypesInfo, call.Args[0])
-				if !ok || !strings.HasPrefix(format, `report["profile"]`) {
-					return true
-				}
-				seenTpl = true
-				found := false
-				ast.Inspect(call.Args[1], func(m ast.Node) bool {
-					if sel, ok := m.(*ast.SelectorExpr); ok && sel.Sel.Name == "Name" {
-						if s := gen.TypesInfo.Selections[sel]; s != nil {
-							if nt := namedOf(s.Recv()); nt != nil && nt.Obj().Name() == "Profile" {
-								found = true
-							}
-						}
+		proto := &symWalker{Inline: samePkgInline(gen)}
+		proto.OnText = func(w *symWalker, at ast.Expr, text *Sym) {
+			if !strings.HasPrefix(text.Template(), `report["profile"]`) {
+				return
+			}
+			seenTpl = true
+			found := false
+			text.Walk(func(s *Sym) {
+				if s.K == symField && s.Name == "Name" && s.X != nil {
+					t := s.X.Type
+					if t == nil && s.X.Obj != nil {
+						t = s.X.Obj.Type()
 					}
-					return true
-				})
-				okName = found
-				return true
+					if nt := namedOf(t); nt != nil && nt.Obj().Name() == "Profile" {
+						found = true
+					}
+				}
 			})
+			okName = found
+		}
+		for _, fd := range symRoots(gen) {
+			p.SymWalk(gen, fd, proto, nil)
 		}
 		if seenTpl {
 			r.Check(okName, "C03.L5", "profile-name-source", "", `report["profile"] is generated from Profile.Name`, `the report["profile"] rule is not generated from Profile.Name`)
